@@ -149,7 +149,12 @@ func setup(args map[string]string, tier string) error {
 
 type enum struct{}
 
-func (enum) Count(tier string) int { return padBase + len(padInputs)*padWidths }
+func (enum) Count(tier string) int {
+	if tier == "selftest" {
+		return 400 // the determinism self-test needs a sample only
+	}
+	return padBase + len(padInputs)*padWidths
+}
 
 func (enum) RunCase(i int, c *hlib.Ctx) *hlib.Run {
 	if i < padBase {
